@@ -1,5 +1,7 @@
 #include "harness.hpp"
 #include <iostream>
+#include <cstdlib>
+#include <unistd.h>
 
 namespace vh {
 std::map<std::string, Handler>& registry() {
@@ -30,7 +32,13 @@ std::string hexDecode(const std::string& h) {
 int main(int, char**) {
 	std::ios::sync_with_stdio(false);
 	std::string line;
+	// watchdog: a command that runs longer than this many seconds is a hang (SIGALRM kills the process,
+	// the runner reports the command that did not answer)
+	unsigned lineTimeout = 30;
+	if (const char* e = std::getenv("VH_LINE_TIMEOUT"))
+		lineTimeout = static_cast<unsigned>(std::atoi(e));
 	while (std::getline(std::cin, line)) {
+		alarm(lineTimeout);
 		if (line.empty()) {
 			std::cout << "\n";
 			continue;
